@@ -30,6 +30,33 @@ def plan_st(draw, tier):
                              n_jobs_choices=(1, 1, 1, 1, 1, 2), defaults_ok=True, metrics=gen.SAFE_METRICS))
     if cfg["n_jobs"] != 1 and draw(st.booleans()):
         cfg["backend"] = draw(st.sampled_from([None, "loky"]))       # process-based workers (joblib's default)
+    if draw(st.integers(0, 5)) == 0:
+        cfg = draw(gen.config_st(nps=[None], lps=["EpsilonGreedy", "UCB1", "Softmax", "ThompsonSampling", "Popularity",
+                                                  "LinGreedy", "LinUCB", "LinTS", "LinTS", "LinUCB"],
+                                 arm_kinds=("int", "str", "float"), min_arms=2, max_arms=4, with_binarizer=True,
+                                 scale_ok=True))
+        # queries, then a warm start that replaces the state of a cold arm, then queries again with no training call in
+        # between: whatever the queries left behind for the cold arm must not survive the replacement. Linear policies
+        # also on wide contexts (a dozen features and more).
+        d = draw(st.sampled_from([1, 2, 3, 12, 16, 33])) if cfg["lp"][0] in ops.LINEAR else None
+        h = gen.History(draw, cfg, max_rows=8, query_rows=(1, 2, 3), d=d)
+        dec, rew, cx = h.batch(omit=True, min_rows=2)
+        h.ops.append(["fit", dec, rew, cx])
+        h.fitted, h.rows = True, len(dec)
+        if draw(st.booleans()) and h.can_add():
+            h.add_arm()
+        n_prefix = len(h.ops)
+        for _ in range(draw(st.integers(1, 3))):
+            h.query()
+        n_burst = len(h.ops) - n_prefix
+        h.warm_start()[2] = draw(st.sampled_from([1.0, 1.0, 0.75, 0.5]))
+        h.query()
+        h.query()
+        h.cold_arms()
+        h.partial_fit()
+        h.query()
+        return {"config": cfg, "prefix": h.ops[:n_prefix], "burst": h.ops[n_prefix:n_prefix + n_burst],
+                "cont": h.ops[n_prefix + n_burst:]}
     h = gen.History(draw, cfg, max_rows=8, query_rows=(1, 2, 3, 6), series_queries=True, refit_new_d=True)
     h.fit() if draw(st.integers(0, 3)) else h.partial_fit()
     for _ in range(draw(st.integers(0, 5))):
